@@ -362,6 +362,41 @@ func LexerIdentifierLanguage(w *World) ([2]string, map[string]bool, error) {
 			first = t.Set.ClassString()
 		}
 	}
+	// the identifier arm written as one anchored probe on the rest of the input:
+	// ^ class class*  (first character, following characters)
+	if first == "" || rest == "" {
+		for _, r := range lf.Regexes {
+			if r.Tree == nil || !r.OnRest {
+				continue
+			}
+			t := r.Tree.Simplify()
+			if t.Op != syntax.OpConcat {
+				continue
+			}
+			var parts []*syntax.Regexp
+			for _, sub := range t.Sub {
+				if sub.Op == syntax.OpBeginText || sub.Op == syntax.OpBeginLine {
+					continue
+				}
+				parts = append(parts, sub)
+			}
+			if len(parts) != 2 || parts[0].Op != syntax.OpCharClass || parts[1].Op != syntax.OpStar || parts[1].Sub[0].Op != syntax.OpCharClass {
+				continue
+			}
+			has := func(cc *syntax.Regexp, c rune) bool {
+				for i := 0; i+1 < len(cc.Rune); i += 2 {
+					if cc.Rune[i] <= c && c <= cc.Rune[i+1] {
+						return true
+					}
+				}
+				return false
+			}
+			a, b := parts[0], parts[1].Sub[0]
+			if has(a, 'a') && has(a, 'Z') && !has(a, '5') && has(b, 'a') && has(b, '5') {
+				first, rest = classString(a), classString(b)
+			}
+		}
+	}
 	if first == "" || rest == "" {
 		return [2]string{}, nil, fmt.Errorf("identifier character classes not found in the lexer (first=%q rest=%q)", first, rest)
 	}
